@@ -42,16 +42,78 @@ def enum_cases(quick: bool):
         for algo in gen.ALGOS:
             for req in REQS:
                 yield {"algorithm": algo, "rules": [shape(*sh, 0)]}, req, {"strict": False}
-    red = shapes[::12] if quick else shapes[::5]
+    red = shapes[::11] if quick else shapes[::5]   # 11 and 5 are coprime to every radix of `shapes`: all effects/ids/attrs occur
     for s1, s2 in itertools.product(red, repeat=2):
         for algo in gen.ALGOS:
             for req in REQS[:2]:
                 yield {"algorithm": algo, "rules": [shape(*s1, 0), shape(*s2, 1)]}, req, {"strict": False}
+    yield from tier_cases(quick)
     r = random.Random(3)
     for _ in range(400 if quick else 4000):
         k = r.randrange(3, 5)
         yield ({"algorithm": gen.choice(r, gen.ALGOS), "rules": [shape(*gen.choice(r, shapes), n) for n in range(k)]},
                gen.choice(r, REQS), {"strict": r.random() < 0.3})
+
+
+TIER_TARGETS = [{"type": "doc", "id": "1"}, {"type": ["doc", "file"], "attrs": {"level": 1}}, {"type": "doc"}, {"type": "*"}]
+VARIANTS = [(e, c) for e in ("permit", "deny") for c in (None, True, False, {"<": [{"attr": "context.n"}, "x"]})]
+
+
+def tier_cases(quick: bool):
+    """every sequence of ≤3 (quick: ≤2, plus a third of the triples) rules INSIDE one tier — all four tiers — over
+    {permit, deny} × {no condition, true, false, ill-typed} × 3 algorithms, optionally preceded by a more specific rule
+    that targets another resource: what decides is the whole tier in document order, not its first target-matching rule."""
+    req = REQS[0]
+    other = {"id": "other", "effect": "deny", "actions": ["read"], "resource": {"type": "doc", "id": "zzz"}}
+    for ti, tgt in enumerate(TIER_TARGETS):
+        for n in (1, 2, 3):
+            for k, vs in enumerate(itertools.product(VARIANTS, repeat=n)):
+                if quick and n == 3 and (k + ti) % 3:
+                    continue
+                rules = []
+                for j, (e, c) in enumerate(vs):
+                    rule = {"id": f"t{j}", "effect": e, "actions": ["read"] if j % 2 == 0 else ["*"], "resource": dict(tgt)}
+                    if c is not None:
+                        rule["condition"] = c
+                    rules.append(rule)
+                for algo in gen.ALGOS:
+                    yield {"algorithm": algo, "rules": rules}, req, {"strict": False}
+                    if ti > 0 and n == 2:
+                        yield {"algorithm": algo, "rules": [rules[0], other, rules[1]]}, req, {"strict": False}
+
+
+def session_cases(seed: int, n: int):
+    """one compiled decision function, several requests that agree on (action, type, id) but differ in the resource
+    attributes / differ in the id only / repeat: the answer to a request may not depend on the requests before it."""
+    r = random.Random(seed)
+    shapes = [(a, t, i, at, e) for a in ACTS for t in TYPES for i in IDS for at in ATTRS for e in ("permit", "deny")]
+    for _ in range(n):
+        k = r.randrange(2, 5)
+        pol = {"algorithm": gen.choice(r, gen.ALGOS), "rules": [shape(*gen.choice(r, shapes), j) for j in range(k)]}
+        base = dict(gen.choice(r, REQS[:2]))
+        reqs = []
+        for _ in range(r.randrange(2, 5)):
+            q = dict(base)
+            m = r.random()
+            if m < 0.5:
+                q["rattrs"] = gen.choice(r, [{"level": 1}, {"level": 2}, {}, {"level": "1"}])
+            elif m < 0.7:
+                q["rid"] = gen.choice(r, ["1", "2", None, 1])
+            elif m < 0.8:
+                q["rtype"] = gen.choice(r, ["doc", "file", "img"])
+            elif m < 0.9:
+                q["action"] = gen.choice(r, ["read", "write"])
+            reqs.append(q)
+        yield pol, {"strict": r.random() < 0.3}, reqs
+    for _ in range(n // 2):
+        pol = gen.gen_policy(r, False, False, algo="explicit")
+        reqs = [gen.gen_request(r, pol) for _ in range(3)]
+        q = dict(reqs[0]); q["rattrs"] = {k: gen.choice(r, gen.NEAR_DUP) for k in q["rattrs"]}
+        reqs.append(q)
+        q2 = dict(reqs[1]); q2["ctx"] = dict(reqs[2].get("ctx") or {})
+        reqs.append(q2)
+        reqs.append(reqs[0])
+        yield pol, {"strict": r.random() < 0.3}, reqs
 
 
 def irrelevant_rule(r: random.Random, req: dict) -> dict:
@@ -76,6 +138,10 @@ def run_cases(run: lib.Run, audit: dict, scale: int = 1):
     n_enum = len(cases)
     cases += list(gc.random_cases(run.seed * 7 + 3, (2000 if quick else 20000) * scale, sets=0.2, algo="explicit", hostile=0.05))
     res = gc.run_batch(cases, consts)
+    sess = list(session_cases(run.seed * 13 + 5, (250 if quick else 2500) * scale))
+    sres = gc.run_sessions(sess, consts)
+    run.count("session_requests", len(sres))
+    res = res + sres
     rr = random.Random(run.seed + 33)
     for i, (pol, req, cfg, out, model, extra) in enumerate(res):
         run.count(gc.outcome_class(out))
@@ -88,7 +154,7 @@ def run_cases(run: lib.Run, audit: dict, scale: int = 1):
         if extra.get("spec_c03") is False:
             run.spec_failures.append({**case, "spec": "decision differs from the reference evaluation on the most specific matching tier (Rbacx.Spec.c03)"})
         # metamorphic consequence on the real code: an irrelevant rule never changes the decision
-        if "rules" in pol and "ok" in out and i % 3 == 0:
+        if "rules" in pol and "ok" in out and i % 3 == 0 and "session" not in extra:
             rules = list(pol["rules"])
             rules.insert(rr.randrange(len(rules) + 1), irrelevant_rule(rr, req))
             out2 = real.run_guard({**pol, "rules": rules}, req, cfg)
@@ -100,7 +166,10 @@ def run_cases(run: lib.Run, audit: dict, scale: int = 1):
 
 def check(run: lib.Run, audit: dict) -> int:
     run.rule = ("exhaustive: every single rule over {4 action lists × 4 types × 3 ids × 3 attrs × 2 effects} × 3 algorithms × 3 requests; all ordered "
-                "pairs over a 1/12 (quick) / 1/5 (thorough) subsample; random 3–4-rule policies; random schema-grammar policies with explicit "
+                "pairs over a 1/11 (quick) / 1/5 (thorough) subsample; every sequence of ≤3 rules inside each of the four tiers over {permit,deny} × "
+                "{no/true/false/ill-typed condition} × 3 algorithms (quick: a third of the triples), also with a more specific rule for another "
+                "resource in between; sessions: one Guard answering 2–6 requests that differ in attributes/id only (the compiled function must "
+                "be stateless); random 3–4-rule policies; random schema-grammar policies with explicit "
                 "algorithm and sets; every third case re-run with an inserted irrelevant rule. non-trivial = a rule decided")
     run.exhaustive = True
     run.assumptions = ["single policies carry an explicit algorithm (C03's quantifier); the default-algorithm divergence is C17/F1"]
